@@ -187,6 +187,24 @@ Definition mean_trunc (ns : nat) (rows : list (list Z)) : list Z :=
 Definition stack_int_mean (ns : nat) (data : list (list Z)) (word : list Z) : list (list Z) * list Z :=
   stack (mean_trunc ns) data word.
 
+(* voltage.svd_denoise_npx: rank = rank or nc // 4; for every distinct collection value (sorted) the
+   traces of that collection (np.where order; argsort of equal keys is the identity) are passed to
+   _svd_denoise with rank int(rank * size / nc) and written back to their positions. *)
+Definition svd_rank (rank nc size : Z) : Z :=
+  ((if rank =? 0 then nc / 4 else rank) * size) / nc.
+Definition svd_groups (coll : list Z) (rank : Z) : list (list Z * Z) :=
+  let nc := Z.of_nat (length coll) in
+  map (fun g => let idx := select coll (zrange (length coll)) g in
+                (idx, svd_rank rank nc (Z.of_nat (length idx))))
+      (uniq_sorted coll).
+(* the returned array, row i: the row of its group's result at the position of i inside the group *)
+Definition svd_npx {A} (d : A) (f : Z -> list A -> list A) (data : list A) (coll : list Z) (rank : Z) : list A :=
+  map (fun i => let g := nth i coll 0 in
+                let rows := select coll data g in
+                nth (length (filter (fun c => c =? g) (firstn i coll)))
+                    (f (svd_rank rank (Z.of_nat (length coll)) (Z.of_nat (length rows))) rows) d)
+      (seq 0 (length coll)).
+
 (* ------------------------------------------------------------------ *)
 (* 3. smooth.rolling_window, smooth.lp (index structure, any element type) *)
 (* ------------------------------------------------------------------ *)
